@@ -1,5 +1,6 @@
 import CG.Drv.Hex
 import CG.Model.Peer
+import CG.Model.PeerConc
 import CG.Spec.PeerSpec
 import CG.Crypto.Sha256
 import CG.Generated.Tables
@@ -202,8 +203,111 @@ def placements (base : List Event) : List (Nat × List Event) → List (List Eve
       -- which are placements too
       (List.range (evs.length + 1 - start)).map fun d => insertAt evs (start + d) call
 
+
+/-! ### `c12.conc`: the interleaving model (`CG.Model.PeerConc`) replayed on a steered real session
+
+Request `c12.conc <remote> <progs> <sched>`: `remote` = `f<N>` (N frames, tags `0..N-1`) optionally followed by `c`
+(the node half-closes); `progs` = local thread programs separated by `/` (`s` = send a serialisable message,
+`u` = send an unserialisable one, `d` = `disconnect()`, `-` = empty program); `sched` = thread ids (0 = receive thread).
+
+The real threads are parked at the H3 sync points, which are exactly the boundaries of the model's steps, except for two
+steps that have no hook because they touch no shared state: the receive thread's blocking read (it simply happens when
+bytes are there) and a local thread entering `disconnect()`.  The replay performs those two eagerly — inserting steps
+that commute with everything is still a schedule of the model. -/
+namespace Conc
+open CG.Model.PeerConc
+
+def cmsg (i : Nat) : Msg := ⟨.plain, toString i, true⟩
+def umsg : Msg := ⟨.plain, "unwritable", false⟩
+def smsg : Msg := ⟨.plain, "local", true⟩
+
+def parseRemote (s : String) : Option (List RemoteEv) :=
+  let closed := s.endsWith "c"
+  let body := if closed then (s.dropEnd 1).toString else s
+  if !body.startsWith "f" then none else
+  match (body.drop 1).toString.toNat? with
+  | none => none
+  | some n => some ((List.range n).map (fun i => RemoteEv.frame (cmsg i)) ++ (if closed then [RemoteEv.fail] else []))
+
+def parseProg (s : String) : Option (List LOp) :=
+  if s == "-" then some [] else
+  s.toList.mapM fun c => if c == 's' then some (LOp.send smsg) else if c == 'u' then some (LOp.send umsg)
+    else if c == 'd' then some LOp.disconnect else none
+
+def parseProgs (s : String) : Option (List (List LOp)) := (s.splitOn "/").mapM parseProg
+
+def parseSched (s : String) : Option (List Nat) :=
+  if s == "-" then some [] else s.toList.mapM fun ch => if ch.isDigit then some (ch.toNat - 48) else none
+
+/-- the invisible steps: a read that can return, a local thread entering `disconnect()` -/
+def eager (fuel : Nat) (s : St) : St :=
+  match fuel with
+  | 0 => s
+  | f + 1 =>
+    let s1 := match s.r with
+      | .read => (stepR s).getD s
+      | _ => s
+    let s2 := (List.range s1.locals.length).foldl (fun s i =>
+      match s.locals[i]? with
+      | some ⟨.idle, .disconnect :: _⟩ => (step s (i + 1)).getD s
+      | _ => s) s1
+    if s2 == s then s else eager f s2
+
+def runH (s : St) (sched : List Nat) : St :=
+  sched.foldl (fun s tid => eager 4 ((step s tid).getD s)) (eager 4 s)
+
+/-- the observable log: deliveries, the disconnected event, send results (what the socket carries is not compared) -/
+def logStr (os : List Output) : String :=
+  let l := os.filterMap fun
+    | .deliver m => some ("M" ++ m.tag)
+    | .emitDisconnected => some "D"
+    | .sendResult none => some "S:ok"
+    | .sendResult (some .illegalState) => some "S:illegal"
+    | .sendResult (some .io) => some "S:io"
+    | _ => none
+  if l.isEmpty then "-" else ",".intercalate l
+
+/-- judgement of a log observed on the real code, by the statements proved in `CG.Props.C12conc` -/
+def judgeLog (nframes : Nat) (quiet : Bool) (log : String) : String :=
+  let toks := if log == "-" then [] else log.splitOn ","
+  let discs := (toks.filter (· == "D")).length
+  let ms := toks.filterMap fun t => if t.startsWith "M" then (t.drop 1).toString.toNat? else none
+  let increasing := (ms.zip (ms.drop 1)).all fun (a, b) => a < b
+  let inRange := ms.all (· < nframes)
+  let afterD := (toks.dropWhile (· != "D")).drop 1
+  let lateN := (afterD.filter (·.startsWith "M")).length
+  let okAfterD := (afterD.filter (· == "S:ok")).length
+  if discs > 1 then "viol:disconnected-twice"
+  else if !(increasing && inRange) then "viol:delivery-order"
+  else if quiet && lateN > 0 then "viol:delivery-after-remote-disconnect"
+  else if lateN > 1 then "viol:late-deliveries"
+  else if okAfterD > 1 then "viol:send-ok-after-disconnect"
+  else "ok"
+
+def handle (a : List String) : Option String :=
+  match a with
+  | [remote, progs, sched] =>
+    match parseRemote remote, parseProgs progs, parseSched sched with
+    | some r, some ps, some sc =>
+      let s := runH (init r ps) sc
+      some ("ok:" ++ logStr s.out ++ "\t*")
+    | _, _, _ => some "bad-request\tbad-request"
+  | _ => some "bad-request\tbad-request"
+
+def handleJudge (a : List String) : Option String :=
+  match a with
+  | [remote, progs, log] =>
+    match parseRemote remote, parseProgs progs with
+    | some r, some ps => some (judgeLog (frames r).length (ps.all fun p => p.all quietOp) log ++ "\t*")
+    | _, _ => some "bad-request\tbad-request"
+  | _ => some "bad-request\tbad-request"
+
+end Conc
+
 def handle (op : String) (a : List String) : Option String :=
   match op, a with
+  | "c12.conc", a => Conc.handle a
+  | "c12.judgeconc", a => Conc.handleJudge a
   | "c12.session", [minh, _seg, toks] =>
     match minh.toInt?, parseToks toks with
     | some minh, some evss =>
